@@ -249,3 +249,96 @@ Proof.
 Qed.
 
 End Conf.
+
+(* ---------- operator conflicts of a left-recursive rule (E012) ---------- *)
+Section LeftRec.
+Variable fi fo pr lf : smap.
+
+Definition lefts_of (recs : list recursion) : list regex :=
+  flat_map (fun b => match b with RecLeft o _ | RecLeftRight o _ _ => [o] | _ => [] end) recs.
+
+(* the operator of an unguarded left-recursive branch may also follow the rule from outside its own
+   operator recursion, or is also the operator of a later left-recursive branch *)
+Definition OpConflict (recs : list recursion) (id : nat) (n : nat) : Prop :=
+  exists i branch op,
+    nth_error (lefts_of recs) i = Some branch /\ skip_first branch = Some op /\ n = rid_of op
+    /\ has_predicate branch = false
+    /\ (share (get pr (rid_of op)) (get lf id)
+        \/ exists j branch' op', i < j /\ nth_error (lefts_of recs) j = Some branch'
+                                 /\ skip_first branch' = Some op'
+                                 /\ share (get pr (rid_of op)) (get pr (rid_of op'))).
+
+Lemma check_intersection_left op branches i c n :
+  In (c, n) (check_intersection pr op branches i true false) <->
+  c = E012 /\ n = rid_of op
+  /\ exists j branch' op', i < j /\ nth_error branches j = Some branch' /\ skip_first branch' = Some op'
+                           /\ share (get pr (rid_of op)) (get pr (rid_of op')).
+Proof.
+  unfold check_intersection.
+  match goal with |- context [nonempty ?l] => destruct (nonempty l) eqn:E end.
+  - apply nonempty_filter in E. destruct E as (b' & Hb' & Hs). apply In_skipn in Hb'. destruct Hb' as (j & Hj & Hn).
+    split.
+    + intros [H|[]]. injection H as <- <-. split; [reflexivity|]. split; [reflexivity|].
+      destruct (skip_first b') as [o'|] eqn:Es; [|discriminate].
+      exists j, b', o'. split; [lia|]. split; [assumption|]. split; [assumption|]. apply nonempty_inter. assumption.
+    + intros (-> & -> & _). left. reflexivity.
+  - split; [intros []|]. intros (_ & _ & j & b' & o' & Hj & Hn & Hs & Hsh). exfalso.
+    match type of E with nonempty (filter ?f ?l) = false =>
+      assert (nonempty (filter f l) = true); [|congruence] end.
+    apply nonempty_filter. exists b'. split; [apply In_skipn; exists j; split; [lia|assumption]|].
+    rewrite Hs. apply nonempty_inter. assumption.
+Qed.
+
+Lemma no_E012_nested fuel : forall x n, ~ In (E012, n) (check_regex fi fo pr lf fuel x []).
+Proof.
+  induction fuel as [|fuel IH]; intros x n; cbn [check_regex]; [intros []|].
+  assert (IHl : forall ops, ~ In (E012, n) (flat_map (fun o => check_regex fi fo pr lf fuel o []) ops)).
+  { intros ops H. apply in_flat_map in H. destruct H as (o & _ & H). eapply IH. eassumption. }
+  destruct x as [id t|id r|id ops|id alts|id ops|id op|id op|id op|id [op|]|id k]; try (intros []).
+  - destruct (has fi id && negb (nonempty (get fi id))); [intros [H|[]]; discriminate|intros []].
+  - apply IHl.
+  - cbn [flat_map enumerate app]. rewrite in_app_iff. intros [H|H]; [|eapply IHl; eassumption].
+    apply in_flat_map in H. destruct H as ([i op] & _ & H).
+    destruct (has_predicate op); [contradiction|].
+    apply check_intersection_shape in H. destruct H as (H & _). discriminate.
+  - intros H. apply in_flat_map in H. destruct H as ([i op] & _ & H). apply in_app_iff in H. destruct H as [H|H].
+    + destruct (Nat.eqb (S i) (length ops)); [contradiction|]. unfold check_intersection in H.
+      match type of H with context [nonempty ?l] => destruct (nonempty l) end; [contradiction|].
+      destruct H as [H|[]]. discriminate.
+    + eapply IH. eassumption.
+  - rewrite in_app_iff. intros [H|H]; [|eapply IH; eassumption].
+    destruct (negb (has_predicate op) && nonempty (inter (get fo id) (get pr (rid_of op)))); [destruct H as [H|[]]; discriminate|contradiction].
+  - rewrite in_app_iff. intros [H|H]; [|eapply IH; eassumption].
+    destruct (negb (has_predicate op) && nonempty (inter (get fo id) (get pr (rid_of op)))); [destruct H as [H|[]]; discriminate|contradiction].
+  - rewrite in_app_iff. intros [H|H]; [|eapply IH; eassumption].
+    destruct (negb (has_predicate op) && nonempty (inter (get fo id) (get pr (rid_of op)))); [destruct H as [H|[]]; discriminate|contradiction].
+  - apply IH.
+Qed.
+
+Theorem operator_conflicts_exact fuel id alts recs n :
+  In (E012, n) (check_regex fi fo pr lf (S fuel) (RAlt id alts) recs) <-> OpConflict recs id n.
+Proof.
+  cbn [check_regex]. fold (lefts_of recs). rewrite !in_app_iff. split.
+  - intros [H|[H|H]].
+    + apply in_flat_map in H. destruct H as ([i branch] & Hin & H).
+      apply In_enumerate in Hin. destruct Hin as (j & -> & Hn). cbn [Nat.add] in *.
+      destruct (skip_first branch) as [op|] eqn:Es; [|destruct H as [H|[]]; discriminate].
+      destruct (has_predicate branch) eqn:Ep; [contradiction|].
+      apply in_app_iff in H. destruct H as [H|H].
+      * destruct (nonempty (inter (get pr (rid_of op)) (get lf id))) eqn:E; [|contradiction].
+        destruct H as [H|[]]. injection H as <-.
+        exists j, branch, op. repeat split; try assumption. left. apply nonempty_inter. assumption.
+      * apply check_intersection_left in H. destruct H as (_ & -> & Hex).
+        exists j, branch, op. repeat split; try assumption. right. assumption.
+    + exfalso. apply in_flat_map in H. destruct H as ([i op] & _ & H).
+      destruct (has_predicate op); [contradiction|].
+      apply check_intersection_shape in H. destruct H as (H & _). discriminate.
+    + exfalso. apply in_flat_map in H. destruct H as (o & _ & H). eapply no_E012_nested. eassumption.
+  - intros (i & branch & op & Hn & Hs & -> & Hp & Hc). left.
+    apply in_flat_map. exists (i, branch). split; [apply In_enumerate; exists i; split; [reflexivity|assumption]|].
+    rewrite Hs, Hp. apply in_app_iff. destruct Hc as [Hc|Hc].
+    + left. apply nonempty_inter in Hc. rewrite Hc. left. reflexivity.
+    + right. apply check_intersection_left. split; [reflexivity|]. split; [reflexivity|assumption].
+Qed.
+
+End LeftRec.
